@@ -517,7 +517,8 @@ impl Xot {
         for ancestor in self.ancestors(node) {
             for (key, value) in self.namespaces(ancestor).iter() {
                 if seen.contains(&key) {
-                    return None;
+                    // this declaration is overridden by a nearer one
+                    continue;
                 }
                 seen.insert(key);
                 if *value == namespace {
@@ -527,7 +528,7 @@ impl Xot {
         }
         for (key, value) in self.base_prefixes() {
             if seen.contains(&key) {
-                return None;
+                continue;
             }
             seen.insert(key);
             if value == namespace {
